@@ -7,11 +7,14 @@ cd /repo || exit 2
 if ! git diff --quiet; then echo "/repo has uncommitted changes"; exit 2; fi
 git apply "$PATCH" || { echo "patch does not apply"; exit 2; }
 cd /verif
+# the evidence files of the unchanged tree must survive a seeded run
+rm -rf work/evidence.keep && cp -r evidence work/evidence.keep
 for P in "$@"; do
   printf '%s: ' "$P"
   timeout 1800 ./check "$P" --tier "$TIER" 2>/dev/null | grep -E "^(VIOLATION|OK|KNOWN)" | sed -E 's/^(KNOWN-FINDING: property=[^ ]+ sig=[^ ]+).*/\1/' | head -5 | tr '\n' ' '
   echo
 done
 git -C /repo checkout -- . 
+rm -rf evidence && mv work/evidence.keep evidence
 # leave the harness built against the clean tree again
 (cd /verif/harness && CARGO_NET_OFFLINE=true cargo build --release --offline >/dev/null 2>&1)
